@@ -33,11 +33,14 @@ HELPERS = [
     {"cls": "MACD", "params": {"fast_period": 2, "slow_period": 4, "signal_period": 2}, "common": {}},
     {"cls": "BBANDS", "params": {"period": 4}, "common": {}},
     {"cls": "Supertrend", "params": {"period": 3, "multiplier": 1.0}, "common": {}},
+    {"cls": "RSI", "params": {"period": 4}, "common": {}},
 ]
 HELPER_NAMES = ["EMA_3", "SMA_5", "MACD_2_4_2.MACD", "MACD_2_4_2.signal", "BBANDS_4.BBM", "BBANDS_4.BBU",
                 "Supertrend_3.long", "Supertrend_3.short", "Supertrend_3.long",
                 # helper series kept in candle.sub_indicators
-                "MACD_2_4_2_EMA_fast", "BBANDS_4_SMA", "Supertrend_3_atr", "Supertrend_3_atr_TR"]
+                "MACD_2_4_2_EMA_fast", "BBANDS_4_SMA", "Supertrend_3_atr", "Supertrend_3_atr_TR",
+                # one field of a DICT-valued helper series (stored as None while RSI warms up)
+                "RSI_4", "RSI_4_data.gain", "RSI_4_data.loss"]
 MISSING = "no_such_reading"
 
 
